@@ -43,6 +43,39 @@ def run_case(case):
         v["key"] = "C03:" + v["clause"]
         v["shrink_case"] = replay_case(info, case)
         out["violations"].append(v)
+    # the caller keeps its `initial_states` dict and passes the same object again: period 0 of the second call must still report
+    # the values that were supplied (the dict must come back unchanged from the first call)
+    if not out["violations"]:
+        import numpy as np
+
+        from common import impl_site
+        from dsl import params_impl
+        from pipeline import frame_rows
+
+        obj, snap = info["init_obj"], info["init_snap"]
+        changed = [k for k in snap if k not in obj or not np.array_equal(np.asarray(obj[k]), snap[k])] + [k for k in obj if k not in snap]
+        if changed or list(obj) != info["init_keys"]:
+            out["violations"].append({"clause": "period-0 states equal the initial states", "key": "C03:period-0 states equal the initial states (reuse)",
+                                      "detail": f"the initial_states dict passed to simulate was modified by the call (keys {changed or list(obj)}): a second call with the same object cannot start from the supplied states",
+                                      "shrink_case": replay_case(info, case)})
+        else:
+            try:
+                df2 = info["fns"].simulate(params_impl(info["P"]), initial_states=obj, vf_arr_list=[v for v in info["V"]], seed=info["sim_seed"])
+                n = len(next(iter(snap.values())))
+                rows2 = frame_rows(df2, info["mj"], n)
+                for i in range(n):
+                    for s_ in snap:
+                        out["evals"] += 1
+                        if float(rows2[0][i]["states"][s_]) != float(snap[s_][i]):
+                            out["violations"].append({"clause": "period-0 states equal the initial states", "key": "C03:period-0 states equal the initial states (reuse)",
+                                                      "detail": f"second call with the same initial_states object: agent {i} state {s_}: frame {rows2[0][i]['states'][s_]}, supplied {snap[s_][i]}",
+                                                      "shrink_case": replay_case(info, case)})
+                            break
+                    if out["violations"]:
+                        break
+                out["hist"]["second_call_same_initial_states_object"] = 1
+            except Exception as e:  # noqa: BLE001
+                out["violations"].append({"clause": "simulate runs on a supported specification", "detail": f"second call: {impl_site(e)}: {str(e)[:200]}", "key": f"raise:{impl_site(e)}"})
     if info["mj"]["n_periods"] > 1:
         out["sample"] = {"agent0_period0": info["rows"][0][0], "agent0_period1_states": info["rows"][1][0]["states"],
                          "stochastic_states": [f["name"] for f in info["mj"]["functions"] if f.get("stochastic")]}
